@@ -132,6 +132,8 @@ def main(run, tier):
                        'externals; Lexer._token: which reader (master pattern / regex pattern) is applied to a `/`, for all texts and lexer states; '
                        'the classification against the statement\'s list of contexts by a bounded matrix')
     run.floor = 40
+    from . import parsefwd
+    parsefwd.add(run, tier)
     from . import attrobl
     import contracts.frames as _fr
     attrobl.frame_obligations(run, _fr.LEXER_STATE)
